@@ -80,9 +80,9 @@ Ltac bsolve :=
   end; try congruence.
 
 Ltac unfold_model :=
-  cbv [steps fit_repaired fit_current pd pd_dev base_fit transform_steps init_steps app cls_eqb
+  cbv [steps fit_current pd pd_dev base_fit transform_current init_current app cls_eqb
        crash_free forallb exhibits dev_side is_carver entry_eqb has_quant_features has_ordinal_features
-       c_x_frame k_cast c_cols c_y_series c_y_nan k_idx_len c_idx y_checked
+       c_x_frame k_cast c_cols c_y_series c_y_nan k_idx_len c_idx c_idx_len y_checked
        c_xdev_frame k_cast_dev c_dev_cols c_ydev_series c_ydev_nan c_dev_idx
        c_y_given c_y_01 c_two_classes c_many_classes k_y_sortable c_y_no_str c_sort_by c_no_overlap
        k_x_usable k_x_frame k_cols c_quant_numeric c_ordinal_known c_multiclass_inner_orders
@@ -108,8 +108,8 @@ Lemma reject_guarded :
   guarded c e m = true ->
   fitted o = fitted_at e ->
   exhibits c e m (fitted o) i = true ->
-  crash_free (steps w Repaired c e) (fitted o) i = true ->
-  fst (run_call (steps w Repaired c e) o i) = RAssert.
+  crash_free (steps w Current c e) (fitted o) i = true ->
+  fst (run_call (steps w Current c e) o i) = RAssert.
 Proof.
   intros S w c e m o i Hg Hf Hex Hcf.
   destruct o as [f s]. cbn [fitted] in Hf, Hex, Hcf. subst f.
@@ -131,13 +131,13 @@ Proof.
 Qed.
 
 (* ------------------------------------------------------------------------------------------ *)
-(* the concrete entry points                                                                    *)
+(* the concrete entry points of the Current tree                                                *)
 (* ------------------------------------------------------------------------------------------ *)
 
 (* the boolean side conditions do not depend on the state type: they are evaluated on the lists
    instantiated with any write *)
-Lemma repaired_fit_writes_guarded : forall (S : Type) (w : S -> input -> S) (c : cls),
-  writes_guarded (steps w Repaired c ERefit) = true.
+Lemma current_fit_writes_guarded : forall (S : Type) (w : S -> input -> S) (c : cls),
+  writes_guarded (steps w Current c ERefit) = true.
 Proof. intros S w c. destruct c; reflexivity. Qed.
 
 Lemma transform_writes_guarded : forall (S : Type) (w : S -> input -> S) (t : tree) (c : cls),
@@ -152,25 +152,28 @@ Lemma init_checks_first : forall (S : Type) (w : S -> input -> S) (t : tree) (c 
   checks_first (steps w t c EInit) = true.
 Proof. intros S w t c. destruct t, c; reflexivity. Qed.
 
-(* the CURRENT fit lists write before their guard, for every class *)
-Lemma current_fit_not_guarded : forall (S : Type) (w : S -> input -> S) (c : cls),
-  writes_guarded (steps w Current c ERefit) = false.
+(* before a2fb996 every fit list wrote before its guard *)
+Lemma before_fit_not_guarded : forall (S : Type) (w : S -> input -> S) (c : cls),
+  writes_guarded (steps w Before c ERefit) = false.
 Proof. intros S w c. destruct c; reflexivity. Qed.
 
-(* a fitted object is left unchanged by ANY fit or transform call of the repaired tree, and the
-   fit call is rejected with AssertionError *)
-Lemma reject_frame_repaired :
+(* a fitted object is left unchanged by ANY fit or transform call, and the fit call is rejected
+   with AssertionError *)
+Lemma reject_frame_current :
   forall (S : Type) (w : S -> input -> S) (c : cls) (e : entry) (o o' : obj S) (i : input) (r : result),
   e = ERefit \/ e = ETransform ->
   fitted o = true ->
-  run_call (steps w Repaired c e) o i = (r, o') ->
+  run_call (steps w Current c e) o i = (r, o') ->
   o' = o /\ (e = ERefit -> r = RAssert).
 Proof.
   intros S w c e o o' i r He Hf Hrun. split.
   - destruct He as [He|He]; subst e.
-    + eapply frame_writes_guarded; [apply repaired_fit_writes_guarded | exact Hf | exact Hrun].
+    + eapply frame_writes_guarded; [apply current_fit_writes_guarded | exact Hf | exact Hrun].
     + eapply frame_writes_guarded; [apply transform_writes_guarded | exact Hf | exact Hrun].
-  - intros He'. subst e. change (steps w Repaired c ERefit) with (Guard :: fit_current w c) in Hrun.
+  - intros He'. subst e.
+    assert (Hg : exists l, steps w Current c ERefit = Guard :: l)
+      by (destruct c; eexists; reflexivity).
+    destruct Hg as [l Hl]. rewrite Hl in Hrun.
     rewrite guard_first_rejects in Hrun by exact Hf. inversion Hrun; reflexivity.
 Qed.
 
@@ -205,36 +208,7 @@ Proof.
 Qed.
 
 (* ------------------------------------------------------------------------------------------ *)
-(* the current tree: refit is rejected AFTER the object was rewritten (O5)                      *)
-(* ------------------------------------------------------------------------------------------ *)
-Lemma refit_current_refuted :
-  exists (i : input) (o o' : obj nat),
-    fitted o = true /\
-    run_call (csteps Current KBinary ERefit) o i = (RAssert, o') /\
-    state o' <> state o.
-Proof.
-  exists (valid_input KBinary false true), (mkObj true 0), (mkObj true 2).
-  split; [reflexivity|]. split; [vm_compute; reflexivity | cbn; discriminate].
-Qed.
-
-(* ... and so for every class: a valid second fit of a fitted object either is rejected after
-   the state changed, or (MulticlassCarver without ordinal feature: the constructor call inside
-   fit resets is_fitted) is accepted *)
-Lemma refit_current_all_classes_refuted : forall c : cls,
-  exists (o' : obj nat) (r : result),
-    run_call (csteps Current c ERefit) (mkObj true 0) (valid_input c false false) = (r, o') /\
-    state o' <> 0 /\ (r = ROk <-> c = KMulticlass).
-Proof.
-  intros c; destruct c;
-    match goal with
-    | |- exists o' r, ?run = _ /\ _ =>
-        let v := eval vm_compute in run in
-        exists (snd v), (fst v); split; [vm_compute; reflexivity | split; [cbn; discriminate |]]
-    end; split; intro H; try discriminate H; reflexivity.
-Qed.
-
-(* ------------------------------------------------------------------------------------------ *)
-(* the places where the code has no assertion (in scope, not guarded)                           *)
+(* the places where the current code has no assertion (in scope, not guarded)                   *)
 (* ------------------------------------------------------------------------------------------ *)
 Definition all_triples : list (cls * entry * mal) :=
   flat_map (fun c => flat_map (fun e => map (fun m => (c, e, m)) all_mals) all_entries) all_cls.
@@ -260,7 +234,7 @@ Lemma unguarded_refuted : forall c e m,
   in_scope c e m = true -> guarded c e m = false ->
   exists i : input,
     exhibits c e m (fitted_at e) i = true /\
-    fst (run_call (csteps Repaired c e) (mkObj (fitted_at e) 0) i) <> RAssert.
+    fst (run_call (csteps Current c e) (mkObj (fitted_at e) 0) i) <> RAssert.
 Proof.
   intros c e m Hs Hg.
   assert (Hm : m <> MNone) by (intro; subst m; destruct e; cbn in Hs; discriminate Hs).
@@ -271,25 +245,94 @@ Proof.
   unfold gap_result in H2. intro Heq. rewrite Heq in H2. cbn in H2. discriminate H2.
 Qed.
 
+(* known findings: OrdinalDiscretizer.fit accepts a value absent from the ranking; a str cell in
+   a quantitative column at transform raises from numpy *)
 Lemma unguarded_list :
   filter (fun t => let '(c, e, m) := t in in_scope c e m && negb (guarded c e m)) all_triples =
-  [(KDiscretizer, EInit, MFeatureOverlap); (KDiscretizer, ETransform, MQuantStr);
-   (KQuantitative, ETransform, MQuantStr); (KOrdinal, EFit, MOrdinalUnknown);
-   (KContinuous, EFit, MXNotFrame); (KContinuous, EFit, MYNotSeries); (KContinuous, EFit, MYNaN);
-   (KContinuous, EFit, MIndexMismatch); (KContinuous, EFit, MMissingCol); (KContinuous, EFit, MQuantStr);
-   (KContinuous, ETransform, MQuantStr); (KBinary, ETransform, MQuantStr);
-   (KContinuousCarver, ETransform, MQuantStr); (KMulticlass, ETransform, MMissingCol);
+  [(KDiscretizer, ETransform, MQuantStr); (KQuantitative, ETransform, MQuantStr);
+   (KOrdinal, EFit, MOrdinalUnknown); (KContinuous, ETransform, MQuantStr);
+   (KBinary, ETransform, MQuantStr); (KContinuousCarver, ETransform, MQuantStr);
    (KMulticlass, ETransform, MQuantStr)].
 Proof. vm_compute. reflexivity. Qed.
 
-(* inside guarded triples: variants of the malformation that hit a non-assertion failure point
-   (X is None, y shorter than X, a continuous target mixing str and numbers) *)
+(* inside guarded triples one variant still hits a non-assertion failure point: X is None
+   (known finding), for every class *)
 Lemma crash_gaps_refuted :
   forallb (fun t => let '(c, e, m, i) := t in
              guarded c e m && exhibits c e m false i &&
-             result_eqb (fst (run_call (csteps Repaired c e) (mkObj false 0) i)) ROther)
-          crash_gap_witnesses = true /\ length crash_gap_witnesses = 17.
+             result_eqb (fst (run_call (csteps Current c e) (mkObj false 0) i)) ROther)
+          crash_gap_witnesses = true /\ length crash_gap_witnesses = 9.
 Proof. split; vm_compute; reflexivity. Qed.
+
+(* ------------------------------------------------------------------------------------------ *)
+(* historical records: the tree BEFORE the fix commits                                          *)
+(* ------------------------------------------------------------------------------------------ *)
+(* O5: a valid second fit of a fitted BinaryCarver was rejected AFTER the object was rewritten *)
+Lemma before_fix_refit_refuted :
+  exists (i : input) (o o' : obj nat),
+    fitted o = true /\
+    run_call (csteps Before KBinary ERefit) o i = (RAssert, o') /\
+    state o' <> state o.
+Proof.
+  exists (valid_input KBinary false true), (mkObj true 0), (mkObj true 2).
+  split; [reflexivity|]. split; [vm_compute; reflexivity | cbn; discriminate].
+Qed.
+
+(* ... and so for every class; MulticlassCarver without ordinal feature accepted it (the
+   constructor call inside fit reset is_fitted) *)
+Lemma before_fix_refit_all_classes_refuted : forall c : cls,
+  exists (o' : obj nat) (r : result),
+    run_call (csteps Before c ERefit) (mkObj true 0) (valid_input c false false) = (r, o') /\
+    state o' <> 0 /\ (r = ROk <-> c = KMulticlass).
+Proof.
+  intros c; destruct c;
+    match goal with
+    | |- exists o' r, ?run = _ /\ _ =>
+        let v := eval vm_compute in run in
+        exists (snd v), (fst v); split; [vm_compute; reflexivity | split; [cbn; discriminate |]]
+    end; split; intro H; try discriminate H; reflexivity.
+Qed.
+
+(* what the fix commits repaired: the triples guarded now on whose single-fault input (object
+   without ordinal feature) the Before tree did not answer "AssertionError, object unchanged" *)
+Definition repaired_by_fix (t : cls * entry * mal) : bool :=
+  let '(c, e, m) := t in
+  guarded c e m &&
+  let '(r, o') := gap_result_before c e m in
+  negb (result_eqb r RAssert && (negb (fitted_at e) || Nat.eqb (state o') 0)).
+
+Lemma before_fix_repaired_triples :
+  filter repaired_by_fix all_triples =
+  [(KDiscretizer, EInit, MFeatureOverlap); (KDiscretizer, ERefit, MQuantStr);
+   (KDiscretizer, ERefit, MSecondFit); (KQuantitative, ERefit, MSecondFit);
+   (KQualitative, ERefit, MOrdinalUnknown); (KQualitative, ERefit, MSecondFit);
+   (KOrdinal, ERefit, MOrdinalUnknown); (KOrdinal, ERefit, MSecondFit);
+   (KCategorical, ERefit, MSecondFit);
+   (KContinuous, EFit, MXNotFrame); (KContinuous, EFit, MYNotSeries); (KContinuous, EFit, MYNaN);
+   (KContinuous, EFit, MIndexMismatch); (KContinuous, EFit, MMissingCol); (KContinuous, EFit, MQuantStr);
+   (KContinuous, ERefit, MXNotFrame); (KContinuous, ERefit, MYNotSeries); (KContinuous, ERefit, MYNaN);
+   (KContinuous, ERefit, MIndexMismatch); (KContinuous, ERefit, MMissingCol); (KContinuous, ERefit, MQuantStr);
+   (KContinuous, ERefit, MSecondFit); (KBinary, ERefit, MSecondFit); (KContinuousCarver, ERefit, MSecondFit);
+   (KMulticlass, ERefit, MMissingCol); (KMulticlass, ERefit, MSecondFit);
+   (KMulticlass, ETransform, MMissingCol)].
+Proof. vm_compute. reflexivity. Qed.
+
+(* ... and the variants that raised something else inside guarded triples: y shorter than X, a
+   continuous target mixing str and numbers (X is None still does, see crash_gaps_refuted) *)
+Lemma before_fix_crash_gaps :
+  forallb (fun t => let '(c, e, m, i) := t in
+             exhibits c e m false i &&
+             result_eqb (fst (run_call (csteps Before c e) (mkObj false 0) i)) ROther)
+          crash_gap_witnesses_before = true /\
+  forallb (fun t => let '(c, e, m, i) := t in
+             negb (mal_eqb m MXNotFrame) ||
+             result_eqb (fst (run_call (csteps Current c e) (mkObj false 0) i)) ROther)
+          crash_gap_witnesses_before = true /\
+  forallb (fun t => let '(c, e, m, i) := t in
+             mal_eqb m MXNotFrame ||
+             result_eqb (fst (run_call (csteps Current c e) (mkObj false 0) i)) RAssert)
+          crash_gap_witnesses_before = true.
+Proof. repeat split; vm_compute; reflexivity. Qed.
 
 (* ------------------------------------------------------------------------------------------ *)
 (* non-vacuity: a valid call passes every check                                                 *)
@@ -311,12 +354,11 @@ Qed.
 (* ------------------------------------------------------------------------------------------ *)
 Lemma verdict19_zero_sound : forall k : case19,
   verdict19 k = 0 ->
-  in_domain k = true /\ prop19 k = true /\ (agree Repaired k = true \/ agree Current k = true).
+  in_domain k = true /\ prop19 k = true /\ agree Current k = true.
 Proof.
   intros k H. unfold verdict19 in H.
   destruct (in_domain k); cbn [negb] in H; [|discriminate H].
   destruct (prop19 k); cbn [negb] in H; [|discriminate H].
-  destruct (agree Repaired k); cbn [orb] in H; [tauto|].
   destruct (agree Current k); [tauto | discriminate H].
 Qed.
 
